@@ -42,6 +42,8 @@ type runStat struct {
 	MaxLen        int            `json:"maxLen"`
 	Limit         int            `json:"limit"`
 	Violations    []violation    `json:"violations,omitempty"`
+	Discarded     string         `json:"discarded,omitempty"` // the run is not evidence (and never a verdict): why
+	Counts        map[string]int `json:"counts"`              // how often each branch of interest was taken
 }
 
 type scenario struct {
@@ -58,11 +60,12 @@ type scenario struct {
 	block     bool
 	errTrim   bool
 	ntx       int
+	packs     int // blocks produced per phase by the real packer loop body (consumes Executables, removes what Adopt refuses)
 }
 
 func pickScenario(name string, rng *rand.Rand) scenario {
 	s := scenario{name: name, limit: []int{4, 5, 8, 10}[rng.Intn(4)], lpa: 2 + rng.Intn(3), lifetime: "never", behind: 5,
-		workers: 2 + rng.Intn(2), opsPer: 6 + rng.Intn(6), washes: 3 + rng.Intn(4), advances: 1 + rng.Intn(3), ntx: 14 + rng.Intn(8)}
+		workers: 2 + rng.Intn(2), opsPer: 6 + rng.Intn(6), washes: 3 + rng.Intn(4), advances: 1 + rng.Intn(3), ntx: 14 + rng.Intn(8), packs: 1}
 	switch name {
 	case "mixed":
 	case "limits": // many cheap executable txs from rich accounts, small limit: 150 % / 120 % admission, displacement
@@ -87,12 +90,20 @@ func pickScenario(name string, rng *rand.Rand) scenario {
 	case "errtrim":
 		s.errTrim = true
 		s.limit = 4
+		s.packs = 0
+	case "work": // a legacy tx with proved work; the chain is long enough for the work to expire (MaxTxWorkDelay) during the run
+		s.behind = 38
+		s.advances = 1
+	case "reorg": // sibling heads and a branch switch: a settled tx becomes unknown again, a satisfied dependency unsatisfied
+		s.advances = 1
+	case "evalwindow": // a Remove falls between wash's lock-free setPricing and the logging of that evaluation
 	case "drain": // a block from outside the pool takes the energy of a payer whose txs are pooled as executable
 		s.limit = 8 + rng.Intn(3)
 		s.lpa = 4
 	case "basefee": // a nearly full block raises the base fee above the fee cap of pooled executable txs
 		s.limit = 40
 		s.lpa = 10
+		s.packs = 0
 		s.advances = 1 // the prelude itself advances the head four times; all heads must stay inside the synced window
 	default:
 		harnessErr("unknown scenario %q", name)
@@ -100,7 +111,7 @@ func pickScenario(name string, rng *rand.Rand) scenario {
 	return s
 }
 
-var scenarioNames = []string{"mixed", "limits", "lifetime", "unsynced", "fork", "nofork", "blocklist", "errtrim", "drain", "basefee"}
+var scenarioNames = []string{"mixed", "limits", "lifetime", "unsynced", "fork", "nofork", "blocklist", "errtrim", "drain", "basefee", "evalwindow", "reorg", "work"}
 
 type recorder struct {
 	e     *env
@@ -113,6 +124,98 @@ type recorder struct {
 	hmu   sync.RWMutex // free mode: head advances exclude operations in flight (DESIGN C18: head is a stable fact)
 	inWsh bool
 	smu   sync.Mutex
+	sched *sched
+	// observation state (under smu)
+	washing      bool
+	evalDrops    int
+	errTrimming  bool
+	evictPending bool
+	packerGoid   uint64
+}
+
+func (r *recorder) bump(k string) {
+	if r.st.Counts == nil {
+		r.st.Counts = map[string]int{}
+	}
+	r.st.Counts[k]++
+}
+
+// observe sees every hook event (on the goroutine that hit the hook): statistics only.
+func (r *recorder) observe(ev txpool.VerifEvent) {
+	r.smu.Lock()
+	defer r.smu.Unlock()
+	s := r.sched
+	switch ev.Kind {
+	case "wash.begin":
+		r.washing, r.evalDrops, r.errTrimming = true, 0, false
+	case "wash.end":
+		r.washing, r.errTrimming, r.evictPending = false, false, false
+	case "wash.error":
+		r.errTrimming = true
+	case "wash.evict":
+		r.evictPending = true
+		if r.errTrimming {
+			r.bump("errortrim")
+		}
+	case "wash.limit":
+		if d := len(ev.Removes) - r.evalDrops; d > 0 {
+			r.st.Counts["displaced"] += d
+		}
+	case "add", "fill":
+		// a critical section of an operation while a wash is in flight (sched: the running task is not the washer)
+		if r.washing && (s == nil || (s.cur != nil && s.cur.name != "washer")) {
+			r.st.MidWashOps++
+		}
+	case "remove", "remove.miss":
+		byWash := r.evictPending
+		if s != nil {
+			byWash = s.cur != nil && s.cur.name == "washer"
+		}
+		r.evictPending = false
+		if ev.Kind == "remove" && r.washing && !byWash {
+			r.st.MidWashOps++
+		}
+		if ev.Kind == "remove.miss" {
+			r.bump("remove_miss")
+		}
+		if r.packerGoid != 0 && r.packerGoid == goid() {
+			r.bump("packer_removes")
+		}
+	case "add.dup":
+		r.bump("add_dup")
+	case "fill.dup":
+		r.bump("fill_dup")
+	case "promote.miss":
+		r.bump("promote_miss")
+	case "promote.noop":
+		r.bump("promote_noop")
+	case "promote":
+		r.st.Promotes++
+	case "eval.drop", "eval.blocked", "eval.outlived":
+		r.evalDrops++
+		why := ev.Kind[5:]
+		if ev.Kind == "eval.drop" {
+			why = evalErrClass(ev.Err)
+		}
+		if r.st.Drops == nil {
+			r.st.Drops = map[string]int{}
+		}
+		r.st.Drops[why]++
+	case "wash.unpayable":
+		if r.st.Drops == nil {
+			r.st.Drops = map[string]int{}
+		}
+		r.st.Drops["unpayable-overall"]++
+	}
+}
+
+func (r *recorder) count(m *map[string]int, k string) {
+	r.smu.Lock()
+	if *m == nil {
+		*m = map[string]int{}
+	}
+	(*m)[k]++
+	r.smu.Unlock()
 }
 
 func (r *recorder) viol(kind, format string, a ...any) {
@@ -265,15 +368,6 @@ func (r *recorder) genOps(n int) []op {
 	return out
 }
 
-func (r *recorder) count(m *map[string]int, k string) {
-	r.smu.Lock()
-	if *m == nil {
-		*m = map[string]int{}
-	}
-	(*m)[k]++
-	r.smu.Unlock()
-}
-
 func (r *recorder) doAdd(g int, kind string, s *txSpec) {
 	e := r.e
 	e.evs.emit(trace.Ev{"e": "AddBegin", "g": g, "h": s.h, "kind": kind})
@@ -295,6 +389,16 @@ func (r *recorder) doRemove(g int, s *txSpec) {
 	e := r.e
 	e.evs.emit(trace.Ev{"e": "RemoveBegin", "g": g, "h": s.h})
 	ok := e.pool.Remove(s.tx.Hash(), s.tx.ID())
+	if !ok {
+		// refused although the very tx is pooled: the id index no longer points at it (same id pooled under two hashes)
+		for _, o := range e.pool.VerifSnapshot().Objs {
+			if o.Hash == s.tx.Hash() {
+				r.smu.Lock()
+				r.bump("idguard_refusals")
+				r.smu.Unlock()
+			}
+		}
+	}
 	e.evs.emit(trace.Ev{"e": "RemoveEnd", "g": g, "res": ok})
 }
 
@@ -348,6 +452,31 @@ func (r *recorder) washOnce() {
 	}
 }
 
+// packOnce: the real packer loop body produces the next block from the pool's executables and removes what Adopt refused.
+func (r *recorder) packOnce() {
+	if r.free {
+		r.hmu.Lock() // the new head becomes visible inside doPack: no operation may be in flight (free mode only)
+		defer r.hmu.Unlock()
+	}
+	e := r.e
+	r.smu.Lock()
+	r.packerGoid = goid()
+	r.smu.Unlock()
+	blk, err := e.packBlock()
+	r.smu.Lock()
+	r.packerGoid = 0
+	r.smu.Unlock()
+	if err != nil {
+		harnessErr("packer loop body failed: %v", err)
+	}
+	e.syncHead()
+	r.smu.Lock()
+	r.st.Heads++
+	r.bump("packer_blocks")
+	r.st.Counts["packer_adopted"] += len(blk.Transactions())
+	r.smu.Unlock()
+}
+
 func (r *recorder) advanceHead(withTxs bool) {
 	if r.free {
 		r.hmu.Lock()
@@ -386,6 +515,15 @@ func (r *recorder) snapshotEvent(label string) txpool.VerifSnap {
 	}
 	if s.Len > r.st.MaxLen {
 		r.st.MaxLen = s.Len
+	}
+	ids := map[thor.Bytes32]int{}
+	for _, o := range s.Objs {
+		ids[o.ID]++
+		if ids[o.ID] == 2 {
+			r.smu.Lock()
+			r.bump("sameid_copooled")
+			r.smu.Unlock()
+		}
 	}
 	e.evs.emit(trace.Ev{"e": "Snapshot", "label": label, "quota": quota, "cost": cost, "pool": pool, "n": s.Len})
 	for _, v := range checkSnap(e, s) {
@@ -477,10 +615,21 @@ func (r *recorder) adoptOracle() {
 		}
 		if err := cum.Adopt(t); err == nil {
 			r.st.Adopted++
-		} else if !(packer.IsGasLimitReached(err) || isKnownTx(err)) && !freshOK {
-			// already reported above
-		} else if !(packer.IsGasLimitReached(err) || isKnownTx(err)) && freshOK {
-			// fine alone, refused after earlier pooled txs: excused by the property statement
+		} else {
+			// refused in the cumulative flow: excused by the property statement when the block is full or an earlier pooled
+			// tx invalidated it (then it was fine alone); a tx refused alone as well was reported above
+			class := "badtx:" + err.Error()
+			switch {
+			case packer.IsGasLimitReached(err):
+				class = "gaslimit"
+			case isKnownTx(err):
+				class = "known"
+			case packer.IsTxNotAdoptableNow(err):
+				class = "notnow"
+			}
+			r.smu.Lock()
+			r.bump("adopt_cum_refused:" + class)
+			r.smu.Unlock()
 		}
 		p := e.truePrio(t)
 		if prev != nil && p.Cmp(prev) > 0 && r.sc.name != "fork" {
@@ -512,10 +661,17 @@ func runRecord(scen string, seed int64, mode string) ([]trace.Ev, runStat) {
 	defer e.close()
 	e.evs = &evlog{pool: e.pool}
 	r := &recorder{e: e, sc: sc, rng: rng, free: mode == "free"}
-	r.st = runStat{Scen: scen, Seed: seed, Mode: mode, Limit: sc.limit}
+	r.st = runStat{Scen: scen, Seed: seed, Mode: mode, Limit: sc.limit, Counts: map[string]int{}}
 	r.tr = newTracer(e)
+	if sc.behind > 30 {
+		// a long chain: heads behind-5 .. behind+6 are the synced ones; get there with empty blocks (no events: only the head
+		// the pool works against is a fact the specification needs)
+		for e.best().Header.Number() < uint32(sc.behind-5) {
+			e.advance(nil)
+		}
+	}
 	e.evs.emit(trace.Ev{"e": "Reset", "scen": scen, "seed": seed, "mode": mode,
-		"cfg": map[string]any{"limit": sc.limit, "lpa": sc.lpa, "lifetime": sc.lifetime, "identity": true, "relaxed": r.free, "checkprio": scen != "basefee"}})
+		"cfg": map[string]any{"limit": sc.limit, "lpa": sc.lpa, "lifetime": sc.lifetime, "identity": true, "relaxed": r.free, "checkprio": true}})
 	e.headEvent()
 	if scen == "basefee" {
 		e.levels = []*big.Int{raisedBaseFee}
@@ -526,28 +682,12 @@ func runRecord(scen string, seed int64, mode string) ([]trace.Ev, runStat) {
 		s = &sched{rng: rng}
 		r.tr.gate = func(kind string) { s.yield(kind) }
 	}
-	washing := false
-	r.tr.seen = func(ev txpool.VerifEvent) {
-		switch ev.Kind {
-		case "wash.begin":
-			washing = true
-		case "wash.end":
-			washing = false
-		case "add", "remove", "fill":
-			if washing && s != nil && s.cur != nil && s.cur.name != "washer" {
-				r.st.MidWashOps++
-			}
-		case "promote":
-			r.st.Promotes++
-		case "eval.drop", "eval.blocked", "eval.outlived":
-			why := ev.Kind[5:]
-			if ev.Kind == "eval.drop" {
-				why = evalErrClass(ev.Err)
-			}
-			r.count(&r.st.Drops, why)
-		case "wash.unpayable":
-			r.count(&r.st.Drops, "unpayable-overall")
-		}
+	r.sched = s
+	r.tr.seen = r.observe
+	r.tr.isPacker = func() bool {
+		r.smu.Lock()
+		defer r.smu.Unlock()
+		return r.packerGoid != 0 && r.packerGoid == goid()
 	}
 	e.pool.VerifSetTracer(r.tr.handle)
 	if !r.free {
@@ -565,6 +705,14 @@ func runRecord(scen string, seed int64, mode string) ([]trace.Ev, runStat) {
 	}
 
 	switch sc.name {
+	case "evalwindow":
+		if s != nil {
+			r.preludeEvalWindow(s)
+		}
+	case "work":
+		r.preludeWork()
+	case "reorg":
+		r.preludeReorg()
 	case "drain":
 		r.preludeDrain()
 	case "basefee":
@@ -616,6 +764,15 @@ func runRecord(scen string, seed int64, mode string) ([]trace.Ev, runStat) {
 				r.advanceHead(true)
 			}
 		}})
+		if sc.packs > 0 {
+			np := sc.packs
+			jobs = append(jobs, job{"packer", 2, func(yield func()) {
+				for i := 0; i < np; i++ {
+					yield()
+					r.packOnce()
+				}
+			}})
+		}
 		if sc.block && ph == 0 {
 			victim := e.accts[rng.Intn(len(e.accts))]
 			jobs = append(jobs, job{"blocker", 1, func(yield func()) {
@@ -633,12 +790,14 @@ func runRecord(scen string, seed int64, mode string) ([]trace.Ev, runStat) {
 			for _, j := range jobs {
 				j := j
 				wg.Add(1)
-				go func() {
+				go guard("free "+j.name, func() {
 					defer wg.Done()
 					j.fn(func() {})
-				}()
+				})
 			}
-			wg.Wait()
+			done := make(chan string, 1)
+			go func() { wg.Wait(); done <- "done" }()
+			await(done, "free-running phase")
 		} else {
 			for _, j := range jobs {
 				j := j
@@ -675,7 +834,9 @@ func runRecord(scen string, seed int64, mode string) ([]trace.Ev, runStat) {
 	if end.Len == 0 && (len(end.Quota) != 0 || len(end.Cost) != 0) {
 		r.viol("entries-left", "pool is empty but %d quota and %d cost entries remain", len(end.Quota), len(end.Cost))
 	}
-	e.checkTiming()
+	if !e.timingOK() {
+		r.st.Discarded = "slow: the sync status of a head changed during the run"
+	}
 	r.st.StalePromotes = r.tr.stale
 	evs := e.evs.sorted()
 	r.st.Events = len(evs)
@@ -838,4 +999,142 @@ func (r *recorder) preludeBaseFee() {
 		r.doRemove(96, x)
 	}
 	r.snapshotEvent("basefee-headroom-gone")
+}
+
+// preludeEvalWindow forces the interleaving that free-running goroutines hit by chance: wash publishes the pricing of an
+// object (lock-free setPricing), then - before wash's evaluation event is logged - another goroutine removes that very
+// object; RemoveByHash reports it as priced. Deterministic: the wash is parked inside the window.
+func (r *recorder) preludeEvalWindow(s *sched) {
+	e := r.e
+	var rich *acct
+	for _, a := range e.accts {
+		if !a.poor {
+			rich = a
+			break
+		}
+	}
+	base := e.best().Header.Number()
+	x := e.build(txParams{org: rich, gas: 21000, coef: 51, ref: base, exp: 1000}, nil)
+	y := e.build(txParams{org: rich, gas: 21000, coef: 102, ref: base, exp: 1000}, nil)
+	r.addToUniverse(x, y)
+	r.doFill(96, []*txSpec{x, y}) // pooled without pricing
+	r.advanceHead(false)          // the next tick washes
+	held := false
+	r.tr.holdEval = func(ev txpool.VerifEvent) bool {
+		if held || ev.Hash != x.tx.Hash() || ev.Kind != "eval.done" {
+			return false
+		}
+		held = true
+		s.yield("eval.hold")
+		return true
+	}
+	w := s.spawn("washer", 1, func() { r.washOnce() })
+	rm := s.spawn("remover", 1, func() { r.doRemove(96, x) })
+	s.run(func(live []*task) *task {
+		if !w.done && w.where != "eval.hold" {
+			return w
+		}
+		if !rm.done {
+			return rm
+		}
+		return w
+	})
+	r.tr.holdEval = nil
+	if !held {
+		harnessErr("evalwindow scenario is vacuous: the wash never evaluated the filled tx")
+	}
+	r.smu.Lock()
+	r.bump("eval_window_removes")
+	r.smu.Unlock()
+	r.snapshotEvent("evalwindow")
+}
+
+// preludeReorg: block A (on H) settles t1; a dependent of t1 becomes executable and is accounted. Then a sibling B of A
+// (same parent, same slot, other content) and a child C of B make the other branch the best chain: the head changes at
+// the same height (if B wins the tie) and then moves to a chain that does not contain t1: t1 is unknown again and can be
+// submitted again, its dependent is no longer executable (it stays pooled, flagged and accounted), t2 is settled instead.
+func (r *recorder) preludeReorg() {
+	e := r.e
+	var rich []*acct
+	for _, a := range e.accts {
+		if !a.poor {
+			rich = append(rich, a)
+		}
+	}
+	base := e.best().Header.Number()
+	t1 := e.build(txParams{org: rich[0], gas: 21000, coef: 102, ref: base, exp: 1000}, nil)
+	t2 := e.build(txParams{org: rich[1], gas: 21000, coef: 51, ref: base, exp: 1000}, nil)
+	dep := e.build(txParams{org: rich[1], dlg: e.poorAcct(1), gas: 21000, coef: 0, ref: base, exp: 1000, dep: t1}, nil)
+	r.addToUniverse(t1, t2, dep)
+	r.doAdd(96, "remote", t1)
+	r.doAdd(96, "remote", t2)
+	r.doAdd(96, "remote", dep) // dependency not on chain yet: pooled as non-executable
+	r.washOnce()
+	h := e.best().Header.ID()
+	mint := func(parent thor.Bytes32, txs ...*txSpec) thor.Bytes32 {
+		var l []*tx.Transaction
+		for _, x := range txs {
+			l = append(l, x.tx)
+		}
+		blk, err := e.net.Mint(parent, 0, false, 0, l...)
+		if err != nil {
+			harnessErr("reorg scenario: mint: %v", err)
+		}
+		if e.syncHead() {
+			r.st.Heads++
+		}
+		return blk.Header().ID()
+	}
+	mint(h, t1) // A
+	r.washOnce()
+	r.snapshotEvent("reorg-branch-a")
+	r.adoptOracle()
+	b := mint(h, t2) // B: a sibling of A; the best block only if its id is the smaller one
+	r.washOnce()
+	mint(b) // C: the other branch is longer now
+	if e.best().Header.ParentID() != b {
+		harnessErr("reorg scenario: the longer branch did not become the best chain")
+	}
+	r.washOnce()
+	r.snapshotEvent("reorg-branch-b")
+	r.adoptOracle()
+	r.doAdd(96, "remote", t1) // unknown again on this chain
+	r.washOnce()
+	r.snapshotEvent("reorg-readded")
+	r.adoptOracle()
+	r.smu.Lock()
+	r.bump("reorgs")
+	r.smu.Unlock()
+}
+
+// preludeWork: w carries proved work (block ref = prefix of a real block id 29 blocks back, mined nonce) worth 1 % on its gas
+// price; v is an ordinary tx priced between w's price with and without the work. One block later the work no longer counts
+// (delay > MaxTxWorkDelay).
+func (r *recorder) preludeWork() {
+	e := r.e
+	var rich []*acct
+	for _, a := range e.accts {
+		if !a.poor {
+			rich = append(rich, a)
+		}
+	}
+	head := e.best().Header.Number()
+	refNum := head + 1 - thor.MaxTxWorkDelay // the work counts for block head+1 (delay 30) and not for head+2
+	refID, err := e.net.God.Repo.NewChain(e.best().Header.ID()).GetBlockID(refNum)
+	must(err)
+	w := e.build(txParams{org: rich[0], gas: 21000, coef: 0, ref: refNum, refID: &refID, exp: 1000, minWork: 210_000}, nil)
+	v := e.build(txParams{org: rich[1], typed: true, maxFee: 200, prioWei: big.NewInt(995e12), gas: 100000, ref: head, exp: 1000}, nil)
+	r.addToUniverse(w, v)
+	r.doAdd(96, "remote", w)
+	r.doAdd(96, "remote", v)
+	r.washOnce()
+	r.snapshotEvent("work-counts")
+	r.adoptOracle()
+	r.advanceHead(false)
+	r.washOnce()
+	r.snapshotEvent("work-expired")
+	r.adoptOracle()
+	r.smu.Lock()
+	r.bump("work_expiries")
+	r.smu.Unlock()
 }
